@@ -1,4 +1,5 @@
 import ElaVerif.Lemmas.Ffldb
+import ElaVerif.Lemmas.Cursor
 /-!
 # C16 — ffldb behaves like an ordered, transactional key/value store
 
@@ -216,6 +217,253 @@ theorem C16_bucket_keys_injective :
     | [a, b, c], _ => simp [bucketIndexKey, curBucketIDKey, bidx] at h
   · intro rest k h
     simp [bucketizedKey, curBucketIDKey, bidx] at h
+
+/-! ## bucket operations commute with the abstraction (raw-key level) -/
+
+/-- deleting a list of keys: exactly those keys disappear from what the transaction reads -/
+theorem fetch_foldl_delete (l : Map) : ∀ (t : Tx), TxOK t → t.writable = true → ∀ k,
+    (l.foldl (fun t e => t.deleteKey e.1) t).fetch k =
+      (if l.any (fun e => e.1 == k) then none else t.fetch k) ∧
+    TxOK (l.foldl (fun t e => t.deleteKey e.1) t) ∧
+    (l.foldl (fun t e => t.deleteKey e.1) t).writable = true := by
+  induction l with
+  | nil => intro t h hw k; exact ⟨by simp, h, hw⟩
+  | cons a l ih =>
+    intro t h hw k
+    have h1 := deleteKey_ok h a.1
+    have hw1 : (t.deleteKey a.1).writable = true := hw
+    obtain ⟨i1, i2, i3⟩ := ih (t.deleteKey a.1) h1 hw1 k
+    refine ⟨?_, i2, i3⟩
+    simp only [List.foldl_cons, i1, List.any_cons]
+    rw [C16_delete t h hw a.1 k]
+    by_cases hk : k = a.1
+    · subst hk; simp
+    · have : (a.1 == k) = false := by
+        simp only [beq_eq_false_iff_ne, ne_eq]; exact fun e => hk e.symm
+      simp only [hk, if_false, this, Bool.false_or]
+
+/-- **CreateBucket.**  When it succeeds the new bucket is reachable under its name with the next
+    id of the counter, the counter is advanced, and no other raw key changes — so every other
+    bucket and every key of every bucket reads as before. -/
+theorem C16_create_bucket (t : Tx) (h : TxOK t) (id name : Bytes) (cid : Bytes)
+    (hne : ¬ (id == metaID && name == blockIdxName) = true)
+    (hr : (createBucket t id name).2 = .ok cid) :
+    let t' := (createBucket t id name).1
+    t.writable = true ∧ name ≠ [] ∧ t.hasKey (bucketIndexKey id name) = false ∧
+    cid = be32 ((rdBe32 ((t.fetch curBucketIDKey).getD []) + 1) % 4294967296) ∧
+    (bucketIndexKey id name ≠ curBucketIDKey → t'.fetch (bucketIndexKey id name) = some cid) ∧
+    t'.fetch curBucketIDKey = some cid ∧
+    (∀ k, k ≠ bucketIndexKey id name → k ≠ curBucketIDKey → t'.fetch k = t.fetch k) ∧ TxOK t' := by
+  unfold createBucket at hr ⊢
+  by_cases hw : t.writable = true
+  · simp only [hw, Bool.not_true, Bool.false_eq_true, if_false] at hr ⊢
+    by_cases hn : name.isEmpty = true
+    · simp [hn] at hr
+    · simp only [hn, Bool.false_eq_true, if_false] at hr ⊢
+      by_cases hx : t.hasKey (bucketIndexKey id name) = true
+      · simp [hx] at hr
+      · simp only [hx, Bool.false_eq_true, if_false, hne] at hr ⊢
+        simp only [nextBucketID] at hr ⊢
+        have hcid : be32 ((rdBe32 ((t.fetch curBucketIDKey).getD []) + 1) % 4294967296) = cid := by
+          simpa using hr
+        have h1 := putKey_ok h curBucketIDKey cid
+        have hw1 : (t.putKey curBucketIDKey cid).writable = true := hw
+        refine ⟨trivial, ?_, by simpa using hx, hcid.symm, ?_, ?_, ?_, ?_⟩
+        · intro e; apply hn; simp [e]
+        · intro hd
+          rw [hcid, C16_put _ h1 hw1]; simp
+        · rw [hcid, C16_put _ h1 hw1, C16_put _ h hw]
+          by_cases he : curBucketIDKey = bucketIndexKey id name <;> simp [he]
+        · intro k hk1 hk2
+          rw [hcid, C16_put _ h1 hw1, C16_put _ h hw]
+          simp [hk1, hk2]
+        · rw [hcid]; exact putKey_ok h1 _ _
+  · simp [hw] at hr
+
+/-- **DeleteBucket.**  When it succeeds the bucket's index entry is gone, every raw key that was
+    visible under the id of the bucket or of a bucket nested in it (keys and index entries) is
+    gone, and every other raw key reads as before. -/
+theorem C16_delete_bucket (t : Tx) (h : TxOK t) (id name : Bytes)
+    (hr : (deleteBucket t id name).2 = .ok ()) :
+    ∃ cid, childBucket t id name = some cid ∧
+    let view := t.view
+    let ids := subtreeIds view (view.length + 1) [cid] []
+    let doomed := view.filter fun e => ids.any fun c => hasPrefix c e.1 || hasPrefix (bidx ++ c) e.1
+    let t' := (deleteBucket t id name).1
+    t'.fetch (bucketIndexKey id name) = none ∧
+    (∀ e ∈ doomed, t'.fetch e.1 = none) ∧
+    (∀ k, k ≠ bucketIndexKey id name → doomed.any (fun e => e.1 == k) = false → t'.fetch k = t.fetch k) := by
+  unfold deleteBucket at hr ⊢
+  by_cases hw : t.writable = true
+  · simp only [hw, Bool.not_true, Bool.false_eq_true, if_false] at hr ⊢
+    cases hc : childBucket t id name with
+    | none => simp [hc] at hr
+    | some cid =>
+      refine ⟨cid, rfl, ?_⟩
+      simp only []
+      generalize hd : (t.view.filter fun e =>
+        (subtreeIds t.view (t.view.length + 1) [cid] []).any fun c => hasPrefix c e.1 || hasPrefix (bidx ++ c) e.1) = doomed
+      have hf := fetch_foldl_delete doomed t h hw
+      have h2 := (hf []).2.1
+      have hw2 := (hf []).2.2
+      refine ⟨?_, ?_, ?_⟩
+      · rw [C16_delete _ h2 hw2]; simp
+      · intro e he
+        rw [C16_delete _ h2 hw2]
+        by_cases hk : e.1 = bucketIndexKey id name
+        · simp [hk]
+        · simp only [hk, if_false]
+          rw [(hf e.1).1]
+          have : doomed.any (fun x => x.1 == e.1) = true := by
+            simp only [List.any_eq_true]; exact ⟨e, he, by simp⟩
+          simp [this]
+      · intro k hk hnot
+        rw [C16_delete _ h2 hw2]
+        simp only [hk, if_false]
+        rw [(hf k).1, hnot]; simp
+  · simp [hw] at hr
+
+/-! ## cursors: a forward walk is the ordered merge of the three layers -/
+
+theorem ldb_first_items (d : LdbIt) : (LdbIt.first d).1.items = d.items := by
+  unfold LdbIt.first; split <;> rfl
+
+theorem takeWhile_length_le {α : Type} (p : α → Bool) (l : List α) : (l.takeWhile p).length ≤ l.length := by
+  induction l with
+  | nil => simp
+  | cons a l ih => simp only [List.takeWhile_cons]; split <;> simp <;> omega
+
+theorem rangeList_length_le (s : Bytes) (lim : Option Bytes) (m : Map) : (rangeList s lim m).length ≤ m.length := by
+  unfold rangeList
+  exact Nat.le_trans (takeWhile_length_le _ _) (dropWhile_length_le _ _)
+
+/-- **Forward walk of a key cursor** (`newCursor(…, ctKeys / ctBuckets)`: what `ForEach`,
+    `ForEachBucket` and `DeleteBucket` iterate with; the user-facing `Cursor()` runs two of these
+    pairs through goleveldb's merged iterator over two disjoint key ranges).  With the transaction
+    unchanged during the walk, `First` followed by `Next`… visits exactly
+
+      `mergeF (pending shadows) (mergeF (cache shadows) LD LC) LP`
+
+    where `LD`, `LC`, `LP` are the leveldb snapshot, the cached puts and the transaction's pending
+    puts restricted to the bucket's key range: the ordered merge of the three layers in which an
+    entry of a lower layer is dropped when a higher layer removes or overrides its key — the
+    same overlay `C16_tx_fetch` describes point-wise. -/
+theorem C16_cursor_forward (t : Tx) (id pfx : Bytes) (fuel : Nat)
+    (hck : Sorted t.snap.ckeys) (hpk : Sorted t.pkeys)
+    (hfuel : t.snap.ldb.length + t.snap.ckeys.length < fuel) :
+    let lim := prefixLimit pfx
+    let LD := t.snap.ldb.filter fun e => inRange (some pfx) lim e.1
+    let LC := rangeList pfx lim t.snap.ckeys
+    let LP := rangeList pfx lim t.pkeys
+    CStream t fuel ((newKeyCursor t id pfx).first t fuel).1
+      (mergeF (shadow t) (mergeF (fun k => has t.snap.cremoves k || has t.snap.ckeys k) LD LC) LP) := by
+  simp only []
+  -- the snapshot side: dbCacheIterator.First
+  let it0 : CacheIt := mkCacheIt t.snap pfx
+  let it1 : CacheIt := { it0 with db := it0.db.first.1, ci := it0.ci.first.1, fwd := true }
+  have hdb : Stream it1.db (t.snap.ldb.filter fun e => inRange (some pfx) (prefixLimit pfx) e.1) := by
+    exact ldbit_first_stream it0.db
+  have hci : Stream it1.ci (rangeList pfx (prefixLimit pfx) t.snap.ckeys) := by
+    exact treapit_first_stream it0.ci pfx rfl hck
+  have hlen : (t.snap.ldb.filter fun e => inRange (some pfx) (prefixLimit pfx) e.1).length ≤ it1.db.items.length := by
+    simp [it1, it0, mkCacheIt, LdbIt.mk', ldb_first_items]
+  have hcache := cacheit_choose_stream _ _ _ it1 (Nat.le_refl _) hlen rfl hdb hci
+  have hsh : shadowC it1 = fun k => has t.snap.cremoves k || has t.snap.ckeys k := by
+    funext k; simp [shadowC, it1, it0, mkCacheIt]
+  rw [hsh] at hcache
+  -- the pending side: the treap iterator over the transaction's pending keys
+  have hpend : Stream (ItOps.first (mkPendIt t pfx)).1 (rangeList pfx (prefixLimit pfx) t.pkeys) := by
+    exact treapit_first_stream (mkPendIt t pfx) pfx rfl hpk
+  -- the cursor: chooseIterator after positioning both
+  have hl1 : (t.snap.ldb.filter fun e => inRange (some pfx) (prefixLimit pfx) e.1).length ≤ t.snap.ldb.length :=
+    List.length_filter_le _ _
+  have hl2 := rangeList_length_le pfx (prefixLimit pfx) t.snap.ckeys
+  have hl3 := mergeF_length_le (fun k => has t.snap.cremoves k || has t.snap.ckeys k) _
+    (t.snap.ldb.filter fun e => inRange (some pfx) (prefixLimit pfx) e.1) (rangeList pfx (prefixLimit pfx) t.snap.ckeys)
+    (Nat.le_refl _)
+  unfold Cursor.first
+  exact choose_stream t fuel _
+    (mergeF (fun k => has t.snap.cremoves k || has t.snap.ckeys k)
+      (t.snap.ldb.filter fun e => inRange (some pfx) (prefixLimit pfx) e.1) (rangeList pfx (prefixLimit pfx) t.snap.ckeys))
+    (rangeList pfx (prefixLimit pfx) t.pkeys) _ (Nat.le_refl _)
+    (Nat.lt_of_le_of_lt (Nat.le_trans hl3 (Nat.add_le_add hl1 hl2)) hfuel) rfl hcache hpend
+
+/-- `putKey` / `deleteKey` never leave a key both pending and pending-removed -/
+theorem disjoint_putKey (t : Tx) (h : TxOK t) (k v : Bytes)
+    (hd : ∀ k', has t.premoves k' = true → find k' t.pkeys = none) :
+    ∀ k', has (t.putKey k v).premoves k' = true → find k' (t.putKey k v).pkeys = none := by
+  intro k' hk'
+  simp only [Tx.putKey, has] at hk' ⊢
+  by_cases he : k' = k
+  · subst he; rw [ElaVerif.Treap.find_del_same h.pr] at hk'; simp at hk'
+  · rw [ElaVerif.Treap.find_del_other h.pr he] at hk'
+    rw [ElaVerif.Treap.find_ins_other v h.pk he]
+    exact hd k' hk'
+
+theorem disjoint_deleteKey (t : Tx) (h : TxOK t) (k : Bytes)
+    (hd : ∀ k', has t.premoves k' = true → find k' t.pkeys = none) :
+    ∀ k', has (t.deleteKey k).premoves k' = true → find k' (t.deleteKey k).pkeys = none := by
+  intro k' hk'
+  simp only [Tx.deleteKey, has] at hk' ⊢
+  by_cases he : k' = k
+  · subst he; exact ElaVerif.Treap.find_del_same h.pk
+  · rw [ElaVerif.Treap.find_ins_other [] h.pr he] at hk'
+    rw [ElaVerif.Treap.find_del_other h.pk he]
+    exact hd k' hk'
+
+/-- **… and that merge is the transaction's view of the bucket's key range**: the list the
+    forward walk visits is strictly sorted, and looking a key up in it gives exactly what
+    `fetchKey` (hence `Bucket.Get`) gives for a key inside the range and nothing outside — i.e. the
+    walk enumerates, in key order, exactly the entries of the ordered map `t.view` (see
+    `C16_tx_fetch`) that lie in the range.  `hdisP`/`hdisC`: no key is both put and removed in one
+    layer (kept by `putKey`/`deleteKey`, see `disjoint_putKey`/`disjoint_deleteKey`, and by the
+    merge in `commitTx`). -/
+theorem C16_cursor_forward_view (t : Tx) (h : TxOK t) (hw : t.writable = true) (pfx : Bytes)
+    (hdisP : ∀ k, has t.premoves k = true → find k t.pkeys = none)
+    (hdisC : ∀ k, has t.snap.cremoves k = true → find k t.snap.ckeys = none) :
+    let lim := prefixLimit pfx
+    let LD := t.snap.ldb.filter fun e => inRange (some pfx) lim e.1
+    let LC := rangeList pfx lim t.snap.ckeys
+    let LP := rangeList pfx lim t.pkeys
+    let L := mergeF (shadow t) (mergeF (fun k => has t.snap.cremoves k || has t.snap.ckeys k) LD LC) LP
+    Sorted L ∧ ∀ k, find k L = if inRange (some pfx) lim k then t.fetch k else none := by
+  simp only []
+  have hLD : Sorted (t.snap.ldb.filter fun e => inRange (some pfx) (prefixLimit pfx) e.1) :=
+    sorted_sublist List.filter_sublist h.snap.ldb
+  have hLC := sorted_rangeList pfx (prefixLimit pfx) h.snap.ck
+  have hLP := sorted_rangeList pfx (prefixLimit pfx) h.pk
+  have hshC : ∀ e ∈ rangeList pfx (prefixLimit pfx) t.snap.ckeys,
+      (has t.snap.cremoves e.1 || has t.snap.ckeys e.1) = true := by
+    intro e he
+    have := ((mem_rangeList pfx _ _ h.snap.ck e).mp he).1
+    simp [has, find_of_mem h.snap.ck this]
+  have hshP : ∀ e ∈ rangeList pfx (prefixLimit pfx) t.pkeys, shadow t e.1 = true := by
+    intro e he
+    have := ((mem_rangeList pfx _ _ h.pk e).mp he).1
+    simp [shadow, has, find_of_mem h.pk this]
+  obtain ⟨s1, f1⟩ := mergeF_spec (fun k => has t.snap.cremoves k || has t.snap.ckeys k) _ _ _ (Nat.le_refl _) hLD hLC hshC
+  obtain ⟨s2, f2⟩ := mergeF_spec (shadow t) _ _ _ (Nat.le_refl _) s1 hLP hshP
+  refine ⟨s2, fun k => ?_⟩
+  rw [f2 k, f1 k, find_rangeList pfx _ _ h.pk, find_rangeList pfx _ _ h.snap.ck, find_filterRange pfx _ _ h.snap.ldb]
+  by_cases hr : inRange (some pfx) (prefixLimit pfx) k = true
+  · simp only [hr, if_true, Tx.fetch, hw, Snapshot.get, shadow]
+    by_cases hpr : has t.premoves k = true
+    · simp [hpr, hdisP k hpr]
+    · have hpr' : has t.premoves k = false := by simpa using hpr
+      simp only [hpr', Bool.false_or, Bool.false_eq_true, if_false]
+      cases hpk : find k t.pkeys with
+      | some v => rfl
+      | none =>
+        simp only [has, hpk, Option.isSome_none, Bool.false_eq_true, if_false]
+        by_cases hcr : has t.snap.cremoves k = true
+        · have hcr2 : (find k t.snap.cremoves).isSome = true := hcr
+          simp [hcr2, hdisC k hcr]
+        · have hcr' : (find k t.snap.cremoves).isSome = false := by simpa [has] using hcr
+          simp only [hcr', Bool.false_or, Bool.false_eq_true, if_false]
+          cases hck : find k t.snap.ckeys with
+          | some v => rfl
+          | none => simp
+  · simp [hr]
 
 /-- non-vacuity: a committed put is visible whichever way the cache went. -/
 example :
